@@ -30,7 +30,40 @@ func (e *env) randomOp() {
 	u := 1 + r.Intn(NACC-1)
 	v := r.Intn(2)
 	app := e.c.App
-	switch r.Intn(30) {
+	switch r.Intn(38) {
+	case 30, 31:
+		// SpendingPoolWithdraw with 1..3 beneficiaries (a0 by role, a3, a4; sometimes a stranger) and 1..2 denominations
+		bens := [][]int{{3}, {3, 4}, {0, 3, 4}, {4, 0}, {0}, {3, 5}}[r.Intn(6)]
+		am := coins("ukex", r.Range(1, 3_000_000))
+		if r.Bool() {
+			am = am.Add(coin("ubtc", r.Range(1, 300_000)))
+		}
+		if r.Chance(10) {
+			am = coins("ukex", 90_000_000_000_000) // more than the pool holds
+		}
+		e.withdrawProposal("sp1", bens, am)
+	case 32, 33:
+		e.distributionProposal("sp1")
+	case 34:
+		e.surplusProposal(5)
+	case 35:
+		if r.Bool() {
+			e.collSendDonation(5, coins("ukex", e.pickAmt()))
+		} else {
+			e.collRemove()
+		}
+	case 36:
+		e.ubiProposal([]string{"ubiA", "ubiB"}[r.Intn(2)], uint64(r.Range(1, 40)), uint64([]int64{100, 86400, 20000}[r.Intn(3)]))
+	case 37:
+		// several denominations in one message
+		switch r.Intn(3) {
+		case 0:
+			e.delegateCoins(u, v, coins("ukex", e.pickAmt()).Add(coin("ubtc", e.pickAmt())))
+		case 1:
+			e.spDepositCoins(u, "sp1", coins("ukex", e.pickAmt()).Add(coin("ubtc", e.pickAmt())).Add(coin("xeth", e.pickAmt())))
+		default:
+			e.basketMintCoins(u, coins("ubtc", e.pickAmt()).Add(coin("xeth", e.pickAmt())))
+		}
 	case 0, 1, 2:
 		e.delegate(u, v, stakable[r.Intn(2)], e.pickAmt())
 	case 3, 4:
@@ -55,7 +88,15 @@ func (e *env) randomOp() {
 				amt = held.Int64()
 			}
 		}
-		e.undelegate(u, v, den, amt)
+		other := "ubtc"
+		if den == "ubtc" {
+			other = "ukex"
+		}
+		if oh := app.BankKeeper.GetBalance(e.ctx(), e.accAddr(u), fmt.Sprintf("v%d/%s", p.Id, other)).Amount; oh.IsPositive() && r.Chance(30) {
+			e.undelegateCoins(u, v, coins(den, amt).Add(coin(other, 1+r.Range(0, oh.Int64()-1))))
+		} else {
+			e.undelegate(u, v, den, amt)
+		}
 	case 5:
 		uns := app.MultiStakingKeeper.GetAllUndelegations(e.ctx())
 		if len(uns) == 0 {
@@ -110,7 +151,7 @@ func (e *env) randomOp() {
 	case 15:
 		e.spRegister(3+r.Intn(2), "sp1")
 	case 16:
-		e.spClaim([]int{3, 4, 3, 4, 5}[r.Intn(5)], "sp1")
+		e.spClaim([]int{3, 4, 0, 4, 5}[r.Intn(5)], "sp1")
 	case 17, 18:
 		e.tipRequest(1+r.Intn(4), 1+r.Intn(4), []int64{200, 250, 1000, 5000, 777, 199, 0}[r.Intn(7)])
 	case 19, 20:
@@ -248,6 +289,33 @@ func scenarioRounding(e *env) {
 	e.end()
 }
 
+// every proposal path that pays out of a module, with several payees and denominations
+func scenarioProposals(e *env) {
+	e.setup()
+	e.begin(5, 0)
+	e.withdrawProposal("sp1", []int{3}, coins("ukex", 1_000))
+	e.withdrawProposal("sp1", []int{3, 4}, coins("ukex", 1_000_000).Add(coin("ubtc", 70_000)))
+	e.withdrawProposal("sp1", []int{0, 3, 4}, coins("ukex", 333))
+	e.withdrawProposal("sp1", []int{3, 5}, coins("ukex", 5)) // a5 is no beneficiary: the first payment must be rolled back
+	e.basketMintCoins(2, coins("ubtc", 900_000).Add(coin("xeth", 400_000)))
+	e.basketSwap(2, "ubtc", 50_000, "xeth")
+	e.surplusProposal(5)
+	e.ubiProposal("ubiA", 7, 100)
+	e.end()
+	e.begin(3_600, 1)
+	e.distributionProposal("sp1")
+	e.spClaim(4, "sp1")
+	e.basketBurn(2, 100_000)
+	e.collSendDonation(5, coins("ukex", 10))
+	e.collRemove()
+	e.end()
+	e.begin(700_000, 0) // past the dApp bootstrap: refund or LP issue in EndBlock
+	e.end()
+	e.begin(5, 1)
+	e.distributionProposal("sp1")
+	e.end()
+}
+
 // layer2 MintIssueTx mints the native token
 func scenarioNativeIssue(e *env) {
 	e.setup()
@@ -285,14 +353,18 @@ func main() {
 		for id, nm := range e.denName {
 			dens[fmt.Sprint(id)] = nm
 		}
-		jcases = append(jcases, map[string]interface{}{"name": name, "seed": hseed, "accounts": accs, "denoms": dens, "steps": e.jsteps, "notes": e.notes,
+		opsCount := map[string]int{}
+		for _, js := range e.jsteps {
+			opsCount[fmt.Sprintf("%v:%v", js["kind"], js["status"])]++
+		}
+		jcases = append(jcases, map[string]interface{}{"name": name, "seed": hseed, "ops": opsCount, "accounts": accs, "denoms": dens, "steps": e.jsteps, "notes": e.notes,
 			"replay": "VERIF_SEED=<run seed> harness/bin/c04 -out <dir> -n <n> reproduces history `name` (histories are generated in order from the run seed)"})
 		dist.Inc("history:" + strings.SplitN(name, ":", 2)[0])
 	}
 	for _, sc := range []struct {
 		name string
 		f    func(*env)
-	}{{"scenario:slash_then_redeem", scenarioSlash}, {"scenario:reward_rounding", scenarioRounding}, {"scenario:native_issue", scenarioNativeIssue}} {
+	}{{"scenario:slash_then_redeem", scenarioSlash}, {"scenario:reward_rounding", scenarioRounding}, {"scenario:native_issue", scenarioNativeIssue}, {"scenario:proposal_payouts", scenarioProposals}} {
 		e := newEnv(seed, dist)
 		sc.f(e)
 		finish(e, sc.name, seed)
